@@ -345,6 +345,8 @@ class HistogramND(HistogramBase):
             return ixbins
 
     def fill(self, value: ArrayLike, weight: float = 1, **kwargs):
+        if isinstance(weight, np.integer):
+            weight = int(weight)  # weight**2 must not wrap around in a narrow type
         self._coerce_dtype(type(weight))
         value_array = np.asarray(value)
         for i, binning in enumerate(self._binnings):
@@ -411,7 +413,10 @@ class HistogramND(HistogramBase):
             return  # Nothing to add
         if weights is not None:
             # TODO: Check for weights size?
-            self._coerce_dtype(weights.dtype)
+            if weights.dtype.kind in "iu":
+                self._coerce_dtype(int)  # (sums of narrow integer weights need the room)
+            else:
+                self._coerce_dtype(weights.dtype)
         else:
             self._coerce_dtype(int)  # Counting, as in fill()
         for i, binning in enumerate(self._binnings):
